@@ -195,6 +195,53 @@ pub fn check(rep: &mut Rep, tab: &[(i64, i64)], y: i32, m: u8, d: u8, h: u8, mi:
     }
 }
 
+/// The panicking constructors on an input the statement rejects: the only "error" such a function can return is a
+/// panic, so every variant must panic for the arguments it sees (the _hms variants see nanosecond 0, the at_midnight /
+/// at_noon variants 00:00:00 / 12:00:00); returning an epoch is "a shifted date". F25 (30/31 February in a leap year)
+/// is matched exactly as in `check`.
+#[allow(clippy::too_many_arguments)]
+pub fn check_family_reject(rep: &mut Rep, tab: &[(i64, i64)], y: i32, m: u8, d: u8, h: u8, mi: u8, s: u8, ns: u32, ts: TimeScale) {
+    if !rep.tick() {
+        return;
+    }
+    type Ctor = Box<dyn Fn() -> Epoch>;
+    let mut v: Vec<(&'static str, (u8, u8, u8, u32), Ctor)> = vec![
+        ("from_gregorian", (h, mi, s, ns), Box::new(move || Epoch::from_gregorian(y, m, d, h, mi, s, ns, ts))),
+        ("from_gregorian_hms", (h, mi, s, 0), Box::new(move || Epoch::from_gregorian_hms(y, m, d, h, mi, s, ts))),
+        ("from_gregorian_at_midnight", (0, 0, 0, 0), Box::new(move || Epoch::from_gregorian_at_midnight(y, m, d, ts))),
+        ("from_gregorian_at_noon", (12, 0, 0, 0), Box::new(move || Epoch::from_gregorian_at_noon(y, m, d, ts))),
+    ];
+    if ts == TimeScale::UTC {
+        v.push(("from_gregorian_utc", (h, mi, s, ns), Box::new(move || Epoch::from_gregorian_utc(y, m, d, h, mi, s, ns))));
+        v.push(("from_gregorian_utc_hms", (h, mi, s, 0), Box::new(move || Epoch::from_gregorian_utc_hms(y, m, d, h, mi, s))));
+        v.push(("from_gregorian_utc_at_midnight", (0, 0, 0, 0), Box::new(move || Epoch::from_gregorian_utc_at_midnight(y, m, d))));
+        v.push(("from_gregorian_utc_at_noon", (12, 0, 0, 0), Box::new(move || Epoch::from_gregorian_utc_at_noon(y, m, d))));
+    }
+    if ts == TimeScale::TAI {
+        v.push(("from_gregorian_tai", (h, mi, s, ns), Box::new(move || Epoch::from_gregorian_tai(y, m, d, h, mi, s, ns))));
+        v.push(("from_gregorian_tai_hms", (h, mi, s, 0), Box::new(move || Epoch::from_gregorian_tai_hms(y, m, d, h, mi, s))));
+        v.push(("from_gregorian_tai_at_midnight", (0, 0, 0, 0), Box::new(move || Epoch::from_gregorian_tai_at_midnight(y, m, d))));
+        v.push(("from_gregorian_tai_at_noon", (12, 0, 0, 0), Box::new(move || Epoch::from_gregorian_tai_at_noon(y, m, d))));
+    }
+    for (name, (h2, mi2, s2, ns2), f) in v {
+        let (want, cls) = classify(tab, y as i64, m as u32, d as u32, h2 as u32, mi2 as u32, s2 as u32, ns2);
+        if want != Want::Reject {
+            continue;
+        }
+        rep.class("family-reject");
+        if let Ok(g) = guard(|| f()) {
+            let mut fid = None;
+            if m == 2 && (d == 30 || d == 31) && cal::is_leap(y as i64) && h2 <= 24 && mi2 < 60 && s2 < 60 && ns2 <= 1_000_000_000 {
+                let fl = Fields { y: y as i64, m: 2, d: 29, h: h2 as u32, mi: mi2 as u32, s: s2 as u32, ns: ns2 };
+                if count_d(g.duration) == count_of(&fl, ts) + (d as i128 - 29) * NS_D && g.time_scale == ts {
+                    fid = Some("F25-feb-30-leap-year");
+                }
+            }
+            rep.fail(&format!("gregorian-family/accepted-invalid/{cls}"), fid, || format!("{name}({y},{m},{d},{h2},{mi2},{s2},{ns2},{:?}) returned {} instead of failing ({cls})", ts, fmt_parts(g.duration.to_parts())));
+        }
+    }
+}
+
 pub fn run(cfg: &Cfg, rep: &mut Rep) {
     let sh = rep.shard;
     let tab = leap::table();
@@ -246,7 +293,7 @@ pub fn run(cfg: &Cfg, rep: &mut Rep) {
             _ => r.below(max_valid + 1),
         }
     };
-    for _ in 0..nrej {
+    for k in 0..nrej {
         let y = if r.chance(1, 4) { r.range_i64(-30000, 30000) } else { r.range_i64(1890, 2030) } as i32;
         // start from a valid tuple, then push 1-2 fields to lattice values
         let mut m = 1 + r.below(12);
@@ -266,20 +313,31 @@ pub fn run(cfg: &Cfg, rep: &mut Rep) {
                 }
             }
         }
-        check(rep, &tab, y, m as u8, d as u8, h as u8, mi as u8, s as u8, ns as u32, crate::gen::rand_scale(&mut r), false);
+        let ts = crate::gen::rand_scale(&mut r);
+        check(rep, &tab, y, m as u8, d as u8, h as u8, mi as u8, s as u8, ns as u32, ts, false);
+        if k % 8 == 0 {
+            // the panicking family must fail too (one in eight: a caught panic costs microseconds); TAI and UTC have
+            // twice as many variants, so they get half of these
+            let ts = if k % 16 == 0 { *r.pick(&[TimeScale::TAI, TimeScale::UTC]) } else { ts };
+            check_family_reject(rep, &tab, y, m as u8, d as u8, h as u8, mi as u8, s as u8, ns as u32, ts);
+        }
     }
-    // second = 60 on every 30 Jun / 31 Dec 1960..2030, at 23:59 and elsewhere; also other dates
-    if sh == 0 {
-        for y in 1960..=2030 {
-            for (m, d) in [(6u8, 30u8), (12, 31), (3, 31), (6, 29), (12, 30), (1, 1), (7, 1)] {
-                for ts in SCALES {
-                    check(rep, &tab, y, m, d, 23, 59, 60, 0, ts, false);
-                    check(rep, &tab, y, m, d, 23, 59, 60, 999_999_999, ts, false);
-                    check(rep, &tab, y, m, d, 23, 58, 60, 0, ts, false);
-                    check(rep, &tab, y, m, d, 22, 59, 60, 0, ts, false);
-                    check(rep, &tab, y, m, d, 0, 0, 60, 0, ts, false);
-                    check(rep, &tab, y, m, d, 12, 30, 60, 5, ts, false);
+    // second = 60 on every 30 Jun / 31 Dec 1960..2030 (and other dates), crossed with every time of day class and every
+    // nanosecond class: the leap-second acceptance must not bypass any other field's check
+    for y in 1960..=2030 {
+        if (y as u32) % NSHARDS != sh {
+            continue;
+        }
+        for (m, d) in [(6u8, 30u8), (12, 31), (3, 31), (6, 29), (12, 30), (1, 1), (7, 1)] {
+            for ts in SCALES {
+                for (h, mi) in [(23u8, 59u8), (23, 58), (22, 59), (0, 0), (12, 30), (23, 60), (24, 59), (25, 59), (23, 255)] {
+                    for ns in [0u32, 5, 999_999_999, 1_000_000_000, 1_000_000_001, 2_000_000_000, u32::MAX] {
+                        check(rep, &tab, y, m, d, h, mi, 60, ns, ts, false);
+                    }
                 }
+                check_family_reject(rep, &tab, y, m, d, 23, 59, 60, 1_000_000_001, ts);
+                check_family_reject(rep, &tab, y, m, d, 23, 58, 60, 0, ts);
+                check(rep, &tab, y, m, d, 23, 59, 61, 0, ts, false);
             }
         }
     }
